@@ -330,21 +330,24 @@ def run(prog, ctx):
     # dimension-wise solver: same relations inside one function
     l_assigns = []
     r_assign = None
-    for st in walk_local(sm.node):
-        if isinstance(st, ast.Assign) and len(st.targets) == 1 and isinstance(st.targets[0], ast.Name):
-            t = Terms(sm.node, max_depth=12).term(st.value)
-            lp, rp = _left_parts(t), _right_parts(t)
+    tdeep_sm = Terms(sm.node, max_depth=12)
+    ls_calls = R.calls_in(sm.node, method="lstsq")
+    if ls_calls and len(ls_calls[0].args) >= 2:
+        # roles from the solve call: lstsq(<left-hand side>, <right-hand side>)
+        la, ra = ls_calls[0].args[0], ls_calls[0].args[1]
+        if isinstance(la, ast.Name):
+            for b_ in tdeep_sm.env.bindings.get(la.id, []):
+                if b_.kind == "assign" and b_.value is not None:
+                    lp = _left_parts(tdeep_sm.term(b_.value))
+                    if lp is not None and lp["reg"] is not None:
+                        l_assigns.append((b_.stmt, lp))
+        else:
+            lp = _left_parts(tdeep_sm.term(la))
             if lp is not None and lp["reg"] is not None:
-                l_assigns.append((st, lp))
-            elif rp is not None:
-                r_assign = (st, rp)
-    if r_assign is None:
-        # the right-hand side may be written directly into the solve call
-        for x in R.calls_in(sm.node, method="lstsq"):
-            if len(x.args) >= 2:
-                rp = _right_parts(Terms(sm.node, max_depth=12).term(x.args[1]))
-                if rp is not None:
-                    r_assign = (x, rp)
+                l_assigns.append((ls_calls[0], lp))
+        rp = _right_parts(tdeep_sm.term(ra))
+        if rp is not None:
+            r_assign = (ls_calls[0], rp)
     ctx.floor("C20.D2.dw", len(l_assigns) + (1 if r_assign else 0), 3, "normal-equation sites (dimension-wise)")
     for k, (st, lp) in enumerate(l_assigns):
         same = r_assign is not None and lp["factor"] == r_assign[1]["factor"] and lp["A"] == r_assign[1]["A"]
@@ -463,9 +466,17 @@ def _normalised(fi, s):
     c = cfg_of(fi)
     tm = Terms(fi.node, max_depth=0)      # raw names: reason about definitions explicitly
     v = s.value
-    # form 1:  X[i] / S
-    if isinstance(v, ast.BinOp) and isinstance(v.op, ast.Div) and isinstance(v.left, ast.Subscript) and isinstance(v.left.value, ast.Name):
-        X = v.left.value.id
+    # form 1:  X[i] / S      (X[i] may also be the loop element of `for .., x in zip(.., X)` / enumerate(X))
+    left_seq = None
+    if isinstance(v, ast.BinOp) and isinstance(v.op, ast.Div):
+        if isinstance(v.left, ast.Subscript) and isinstance(v.left.value, ast.Name):
+            left_seq = v.left.value.id
+        elif isinstance(v.left, ast.Name):
+            seq_ = R.element_of(fi, v.left.id)
+            if isinstance(seq_, ast.Name):
+                left_seq = seq_.id
+    if left_seq is not None:
+        X = left_seq
         if isinstance(v.right, ast.Name):
             b = R.reaching_unique_def(fi, v.right.id, v.right)
             if b is None or b.kind != "assign":
@@ -541,7 +552,7 @@ def check_uniform_gradient_gram(prog, ctx):
         diff_dim = any(g[0] == "cmp" and g[1] == "Eq" and {g[2], g[3]} == {("n", mv), ("n", kv)} for g in guards)
         same = any(g[0] == "cmp" and g[1] == "Eq" and g[2][0] == "n" and g[3][0] == "n" and not ({g[2][1], g[3][1]} & {mv, kv}) for g in guards)
         key = ("stiff-" if diff_dim else "mass-") + ("same" if same else "nb")
-        found[key].append((n, poly_of_term(tm.term(n.ast.value))))
+        found[key].append((n, poly_of_term(R.resolve_locals(fi, tm.term(n.ast.value), n, tm))))
     two = ("c", "2")
 
     def wants(L):
